@@ -70,10 +70,8 @@ theorem rankOfI_lt (row : List Q) (t : Int) (h0 : 0 ≤ t) (hC : t.toNat < row.l
   have hm : row[t.toNat] ∈ row := List.getElem_mem hC
   rw [← rankRow_eq_position row _ hm]
   unfold rankRow
-  have h1 : row.countP (fun x => decide (row[t.toNat] < x)) + row.countP (fun x => !decide (row[t.toNat] < x)) = row.length := by
-    have := List.length_eq_countP_add_countP (fun x => decide (row[t.toNat] < x)) (l := row)
-    omega
-  have h2 : 0 < row.countP (fun x => !decide (row[t.toNat] < x)) := by
+  have h1 := List.length_eq_countP_add_countP (fun x => decide (row[t.toNat] < x)) (l := row)
+  have h2 : 0 < row.countP (fun a => decide ¬(decide (row[t.toNat] < a) = true)) := by
     rw [List.countP_pos_iff]
     exact ⟨_, hm, by simp [Rat.lt_irrefl]⟩
   omega
